@@ -12,17 +12,31 @@ import (
 	"github.com/gopcua/opcua/uapolicy"
 )
 
+// remotePublicKey returns the RSA public key of the (first) DER encoded
+// certificate in cert. All supported security policies are RSA based, so a
+// certificate with any other key type is rejected.
+func remotePublicKey(cert []byte) (*rsa.PublicKey, error) {
+	remoteX509Cert, err := uapolicy.ParseCertificate(cert)
+	if err != nil {
+		return nil, err
+	}
+	remoteKey, ok := remoteX509Cert.PublicKey.(*rsa.PublicKey)
+	if !ok {
+		return nil, ua.StatusBadCertificateInvalid
+	}
+	return remoteKey, nil
+}
+
 // NewSessionSignature issues a new signature for the client to send on the next ActivateSessionRequest
 func (s *SecureChannel) NewSessionSignature(cert, nonce []byte) ([]byte, string, error) {
 	if s.cfg.SecurityMode == ua.MessageSecurityModeNone {
 		return nil, "", nil
 	}
 
-	remoteX509Cert, err := uapolicy.ParseCertificate(cert)
+	remoteKey, err := remotePublicKey(cert)
 	if err != nil {
 		return nil, "", err
 	}
-	remoteKey := remoteX509Cert.PublicKey.(*rsa.PublicKey)
 
 	enc, err := uapolicy.Asymmetric(s.cfg.SecurityPolicyURI, s.cfg.LocalKey, remoteKey)
 	if err != nil {
@@ -44,11 +58,10 @@ func (s *SecureChannel) VerifySessionSignature(cert, nonce, signature []byte) er
 		return nil
 	}
 
-	remoteX509Cert, err := uapolicy.ParseCertificate(cert)
+	remoteKey, err := remotePublicKey(cert)
 	if err != nil {
 		return err
 	}
-	remoteKey := remoteX509Cert.PublicKey.(*rsa.PublicKey)
 
 	enc, err := uapolicy.Asymmetric(s.cfg.SecurityPolicyURI, s.cfg.LocalKey, remoteKey)
 	if err != nil {
@@ -73,11 +86,10 @@ func (s *SecureChannel) EncryptUserPassword(policyURI, password string, cert, no
 		return []byte(password), "", nil
 	}
 
-	remoteX509Cert, err := uapolicy.ParseCertificate(cert)
+	remoteKey, err := remotePublicKey(cert)
 	if err != nil {
 		return nil, "", err
 	}
-	remoteKey := remoteX509Cert.PublicKey.(*rsa.PublicKey)
 
 	enc, err := uapolicy.Asymmetric(policyURI, s.cfg.LocalKey, remoteKey)
 	if err != nil {
@@ -110,11 +122,10 @@ func (s *SecureChannel) NewUserTokenSignature(policyURI string, cert, nonce []by
 		return nil, "", nil
 	}
 
-	remoteX509Cert, err := uapolicy.ParseCertificate(cert)
+	remoteKey, err := remotePublicKey(cert)
 	if err != nil {
 		return nil, "", err
 	}
-	remoteKey := remoteX509Cert.PublicKey.(*rsa.PublicKey)
 
 	enc, err := uapolicy.Asymmetric(policyURI, s.cfg.UserKey, remoteKey)
 	if err != nil {
